@@ -9,6 +9,8 @@
 package main
 
 import (
+	"bytes"
+	"compress/gzip"
 	"context"
 	"encoding/hex"
 	"encoding/json"
@@ -145,7 +147,7 @@ func (p *plan) faulty(max int) bool {
 	switch p.kind {
 	case "ok":
 		return len(p.c.body) == 0 || len(p.c.body) > max
-	case "okchunked":
+	case "okchunked", "okgzip":
 		// A chunked body of exactly max bytes is accepted or refused depending
 		// on whether the terminating chunk is already buffered when the last
 		// data is read; the generators never produce it.
@@ -158,7 +160,7 @@ func (p *plan) faulty(max int) bool {
 // faultClass is the stable class name used in signatures.
 func (p *plan) faultClass(max int) string {
 	switch p.kind {
-	case "ok", "okchunked":
+	case "ok", "okchunked", "okgzip":
 		switch n := len(p.c.body); {
 		case n == 0:
 			return "empty-body"
@@ -181,7 +183,9 @@ func (p *plan) token() string {
 		return "g"
 	case "ok":
 		return fmt.Sprintf("200:%d:0:1", p.c.id)
-	case "okchunked":
+	case "okchunked", "okgzip":
+		// okgzip: the limit and the emptiness test apply to the decoded
+		// document, which is what the model knows.
 		return fmt.Sprintf("200:%d:0:0", p.c.id)
 	case "status":
 		return fmt.Sprintf("%d:%d:0:1", p.status, p.c.id)
@@ -287,6 +291,27 @@ func (w *world) handle(rw http.ResponseWriter, rq *http.Request) {
 		rw.(http.Flusher).Flush()
 		w.snapshot()
 		_, _ = rw.Write(p.c.body[half:])
+	case "okgzip":
+		// The document with Content-Encoding: gzip, as a CDN sends it to a
+		// client that did not ask for identity: what is stored and served
+		// must be the document, not its compressed form, and the size limit
+		// applies to the document.
+		z := gzipBytes(p.c.body)
+		rw.Header().Set("Content-Encoding", "gzip")
+		rw.Header().Set("Content-Length", strconv.Itoa(len(z)))
+		_, _ = rw.Write(z[:len(z)/2])
+		rw.(http.Flusher).Flush()
+		w.snapshot()
+		_, _ = rw.Write(z[len(z)/2:])
+	case "cutgzip":
+		// A gzip stream that ends early although the HTTP framing is intact
+		// (the origin handed the CDN a truncated object): a truncated
+		// transfer that only the content coding reveals.
+		z := gzipBytes(p.c.body)
+		z = z[:gzipCut(len(z), p.cut, len(p.c.body))]
+		rw.Header().Set("Content-Encoding", "gzip")
+		rw.Header().Set("Content-Length", strconv.Itoa(len(z)))
+		_, _ = rw.Write(z)
 	case "cutcl":
 		rw.Header().Set("Content-Length", strconv.Itoa(len(p.c.body)))
 		_, _ = rw.Write(p.c.body[:p.cut])
@@ -306,6 +331,31 @@ func (w *world) handle(rw http.ResponseWriter, rq *http.Request) {
 	default:
 		panic("bad plan kind " + p.kind)
 	}
+}
+
+// gzipBytes is the gzip coding of b.
+func gzipBytes(b []byte) []byte {
+	buf := &bytes.Buffer{}
+	zw := gzip.NewWriter(buf)
+	_, _ = zw.Write(b)
+	_ = zw.Close()
+
+	return buf.Bytes()
+}
+
+// gzipCut maps a cut position within a document of n bytes to a cut position
+// within its gzip coding of zn bytes: always at least one byte short, never
+// less than nothing.
+func gzipCut(zn, cut, n int) int {
+	if n <= 0 {
+		return 0
+	}
+	c := cut * zn / n
+	if c >= zn {
+		c = zn - 1
+	}
+
+	return c
 }
 
 // snapshot copies the cache directory as a process killed at this instant
@@ -974,7 +1024,7 @@ func runCase(r *hlib.Result, m *hlib.Model, w *world, cs *caseSpec, caseNo int) 
 		// an older document can happen to have that length: send it with
 		// Content-Length framing instead.
 		unchunk := func(p *plan, max int) {
-			if p != nil && p.kind == "okchunked" && len(p.c.body) == max {
+			if p != nil && (p.kind == "okchunked" || p.kind == "okgzip") && len(p.c.body) == max {
 				p.kind = "ok"
 			}
 		}
@@ -1690,6 +1740,8 @@ func fileClass(name string) string {
 		return "index"
 	case "services.json":
 		return "services"
+	case "hashes.txt":
+		return "hash-list"
 	default:
 		return "rule-list"
 	}
@@ -1700,7 +1752,7 @@ func fileClass(name string) string {
 var statuses = []int{201, 204, 206, 304, 400, 403, 404, 500, 503}
 
 // faultKinds are the fault kinds of the statement (plus "body at the limit").
-var faultKinds = []string{"connerr", "status", "empty", "oversize", "cutcl", "cutchunked", "cancelctx", "cancelbody", "timeouthdr", "timeoutbody"}
+var faultKinds = []string{"connerr", "status", "empty", "oversize", "cutcl", "cutchunked", "cutgzip", "cancelctx", "cancelbody", "timeouthdr", "timeoutbody"}
 
 // mkFault builds a faulty plan of the given kind around a complete content
 // generator.
@@ -1729,6 +1781,10 @@ func (w *world) mkFault(rng *rand.Rand, kind string, max int, mk func(size int) 
 			k = "okchunked"
 		}
 		sizes := []int{max + 1, max + 2, max + 100, 3 * max}
+		if rng.IntN(3) == 0 {
+			// Small on the wire, over the limit once decoded.
+			k = "okgzip"
+		}
 
 		return &plan{kind: k, c: mk(sizes[rng.IntN(len(sizes))])}
 	default: // cutcl cutchunked timeoutbody
@@ -1969,8 +2025,11 @@ func (g *gen) pickFault() string {
 }
 
 func okKind(rng *rand.Rand) string {
-	if rng.IntN(3) == 0 {
+	switch rng.IntN(6) {
+	case 0, 1:
 		return "okchunked"
+	case 2:
+		return "okgzip"
 	}
 
 	return "ok"
@@ -2435,7 +2494,7 @@ func main() {
 		"checked by the property oracle; cache directories are copied at request arrival and mid-body (kill points) and " +
 		"restarted on; valid keys sit on the boundaries of filter.NewID (128 bytes, '!' and '~', two keys differing only in case), invalid pools next to them " +
 		"(129 bytes, DEL, blank, slash, non-ASCII, reserved file names); the model gets every index as decoded, in document order, and validates and sorts it itself; " +
-		"hash: the same for hashprefix.Filter; observer: a concurrent reader of the cache path during replacements of a 6 MiB list; a case is non-trivial when at least one download failed and at " +
+		"hash: the same for hashprefix.Filter; life: healthy downloads onto a failing disk (write(2) on the temporary file fails at the first, a middle, the last byte; rename(2) fails), then restart and a healing round, and groups of simultaneous refreshes of one storage and one hash filter under a reader of the cache directory; the injector also sends gzip-coded bodies (complete, truncated inside intact framing, over the limit once decoded); observer: a concurrent reader of the cache path during replacements of a 6 MiB list; a case is non-trivial when at least one download failed and at " +
 		"least one new document was applied; distinct = distinct (plans, observations) histories"
 	m := hlib.StartModel(o.Model, "C13")
 	defer m.Close()
@@ -2468,6 +2527,12 @@ func main() {
 
 	if os.Getenv("VERIF_C13_ONLY") == "observer" {
 		observerCampaign(o, r, w)
+		r.Finish()
+
+		return
+	}
+	if os.Getenv("VERIF_C13_ONLY") == "life" {
+		lifeCampaign(o, r, m, w)
 		r.Finish()
 
 		return
@@ -2518,6 +2583,8 @@ func main() {
 	phase("hash")
 	observerCampaign(o, r, w)
 	phase("observer")
+	lifeCampaign(o, r, m, w)
+	phase("life")
 	if o.Thorough() {
 		killCampaign(o, r, w)
 		phase("sigkill")
